@@ -28,19 +28,35 @@ type recTrigger struct {
 	on    string
 	mu    sync.Mutex
 	calls int
-	got   []fired
-	panicEvery int
+	held  []heldCall
 }
 
+// Fire keeps the slice it was handed and reads the records only when the state is collected (a trigger may well
+// process its records later, e.g. in batches): what it sees then must still be what was written.
 func (t *recTrigger) Fire(keyPath string, records []trigger.Record) {
 	t.mu.Lock()
 	t.calls++
-	call := t.calls
-	for i := range records {
-		r := records[i]
-		t.got = append(t.got, fired{Key: keyPath, Index: r.Index(), Payload: hex.EncodeToString(r.Payload()), Call: call})
-	}
+	t.held = append(t.held, heldCall{key: keyPath, recs: records, call: t.calls, n: len(records)})
 	t.mu.Unlock()
+}
+
+type heldCall struct {
+	key  string
+	recs []trigger.Record
+	call int
+	n    int
+}
+
+// collect decodes the held records (must be called with t.mu held)
+func (t *recTrigger) collect() []fired {
+	var out []fired
+	for _, h := range t.held {
+		for i := 0; i < h.n; i++ {
+			r := h.recs[i]
+			out = append(out, fired{Key: h.key, Index: r.Index(), Payload: hex.EncodeToString(r.Payload()), Call: h.call})
+		}
+	}
+	return out
 }
 
 var (
@@ -92,7 +108,9 @@ func init() {
 			tmu.Lock()
 			for _, t := range trigs {
 				t.mu.Lock()
-				n += len(t.got)
+				for _, h := range t.held {
+					n += h.n
+				}
 				t.mu.Unlock()
 			}
 			tmu.Unlock()
@@ -107,7 +125,7 @@ func init() {
 		tmu.Lock()
 		for _, t := range trigs {
 			t.mu.Lock()
-			g := append([]fired{}, t.got...)
+			g := t.collect()
 			t.mu.Unlock()
 			sort.SliceStable(g, func(i, j int) bool { return g[i].Call < g[j].Call })
 			out[t.on] = g
